@@ -167,6 +167,11 @@ def run_session(ctx, case):
         srv = rig.Server(d + '/db.sqlite')
         try:
             objs = store.populate(srv, rng, n=8)
+            # an active AES key of the requester with every usage bit: error answers from the innermost steps of the
+            # cryptographic operations (tag verification, padding) are responses too
+            k_ = store.register(srv, 'sym', 'alice', rng, state='active', names=['c02-active'])
+            if k_ is not None:
+                objs.append(k_)
             cert_ok = rig.make_cert(('alice',), 'client')
             for step in range(45):
                 version = rng.choice(rig.VERSIONS + [(1, 2)])
